@@ -35,7 +35,9 @@ def run(ctx):
         oracle_keyer=keyer,
         # messages refused for their generation (more than 1024 ahead of the receiver's ratchet, first message of that sender in the
         # epoch): the streams of the C05 scenarios with a full state comparison around every refusal
-        also=[(["c05", "--focus", "C04"], None, "c05")])
+        also=[(["c05", "--focus", "C04"], None, "c05"),
+              # the history generator's own C04 oracle (a failed commit build leaves the committer unchanged)
+              (["hist", "--histories", "20" if ctx.tier != "thorough" else "200", "--offend", "600", "--focus", "C04"], None, "hist")])
     return rc
 
 
